@@ -1662,7 +1662,9 @@ def op_observe2(w, s):
                 raise V({"C07"}, f"C07.expectations.{name}", f"expectations({name} path, {len(ops)} operators, hashbits={hashbits}): entry {k} is {got[k]!r}, dense {want[k]!r}",
                         sig=f"C07.expectations.{name}")
         if fast is not None:
-            d = float(np.abs(fast - slow).max())
+            # (an entry may have been returned as a real number by one path only: documented for imaginary parts below 1e-8)
+            small_imag = (np.abs(np.imag(fast)) <= 1.0001e-8) & (np.abs(np.imag(slow)) <= 1.0001e-8)
+            d = float(np.where(small_imag, np.abs(np.real(fast) - np.real(slow)), np.abs(fast - slow)).max())
             if d > 1e-10 * max(sc, 1e-300):
                 raise V({"C07"}, "C07.expectations.fast_vs_slow", f"batched fast path differs from one-by-one path by {d:.3e}")
             if hashbits:
